@@ -947,6 +947,20 @@ def single_consumer(eng: Engine, ctx: Ctx, rid: str):
                     uses[par.attr].append((f, node))
                 elif isinstance(par, ast.Return) and f.is_property:
                     pass
+                elif isinstance(par, ast.Assign) and len(par.targets) == 1 and isinstance(par.targets[0], ast.Name) and par.value is node and par.targets[0].id not in f.params:
+                    # a local alias `stream = self.<field>`: bound once, and used only as the receiver of .read(...) / .readline()
+                    al = par.targets[0].id
+                    stores = [x for x in walk_no_nested(f.node) if isinstance(x, ast.Name) and x.id == al and isinstance(x.ctx, (ast.Store, ast.Del))]
+                    loads = [x for x in walk_no_nested(f.node) if isinstance(x, ast.Name) and x.id == al and isinstance(x.ctx, ast.Load)]
+                    ok_al = len(stores) == 1
+                    for x in loads:
+                        px = eng.repo.parent(x)
+                        if isinstance(px, ast.Attribute) and px.attr in ("read", "readline") and isinstance(eng.repo.parent(px), ast.Call):
+                            uses[px.attr].append((f, x))
+                        else:
+                            ok_al = False
+                    if not ok_al:
+                        uses["other"].append((f, node))
                 else:
                     uses["other"].append((f, node))
     for f, node in uses["store"]:
